@@ -11,10 +11,10 @@ abbrev FKey := Option Str × Option Str × Str
 abbrev FAcc := List (FKey × Scaffold)
 
 /-- the local `step` of `fuseByName` (verbatim) -/
-def fuseStep (acc : FAcc) (key : FKey) (proto : Scaffold) (rows : List Row) (gap : List Row → Option Gap) : FAcc :=
+def fuseStep (acc : FAcc) (key : FKey) (proto : Scaffold) (add : List Row → List Row) : FAcc :=
   match dGet? acc key with
-  | some s => dSet acc key { s with rows := Scaffold.appendRows s.rows rows (gap s.rows) }
-  | none => acc ++ [(key, { proto with rows := Scaffold.appendRows [] rows (gap []) })]
+  | some s => dSet acc key { s with rows := add s.rows }
+  | none => acc ++ [(key, { proto with rows := add [] })]
 
 def fuseStore (b : Build) (acc : FAcc) (r : Res) : FAcc :=
   if ¬ r.added ∨ r.o.rows.isEmpty then acc
@@ -23,15 +23,15 @@ def fuseStore (b : Build) (acc : FAcc) (r : Res) : FAcc :=
     fuseStep acc (o.tag, o.haplotype, o.name)
       { name := o.name, tag := o.tag, haplotype := o.haplotype, rank := o.rank,
         originalName := o.originalName, originalTags := o.originalTags }
-      o.toScaffoldRows (fun _ => b.joinGap)
+      (fun built => Scaffold.appendRows built o.toScaffoldRows b.joinGap)
 
-def fuseExtra (b : Build) (acc : FAcc) (e : Scaffold × Option (Fragment × Option Gap)) : FAcc :=
+def fuseExtra (b : Build) (acc : FAcc) (e : Scaffold × Option (Fragment × List Gap)) : FAcc :=
   let s := e.1
   if s.rows.isEmpty then acc
   else fuseStep acc (s.tag, s.haplotype, s.name)
     { name := s.name, tag := s.tag, haplotype := s.haplotype, rank := s.rank,
-      originalName := s.originalName, originalTags := s.originalTags } s.rows
-    (fun built => gapBeforeLeftover b.joinGap built e.2)
+      originalName := s.originalName, originalTags := s.originalTags }
+    (fun built => built ++ gapsBeforeLeftover b.joinGap built e.2 ++ s.rows)
 
 theorem fuseByName_eq (b : Build) :
     fuseByName b = ((b.extra.foldl (fuseExtra b) (b.store.foldl (fuseStore b) [])).map (·.2)) := rfl
@@ -205,25 +205,26 @@ theorem noTerminalGap_appendRows (rows othr : List Row) (g : Option Gap)
 
 /-! ### one fusing step -/
 
-theorem fuseStep_keys (acc : FAcc) (key : FKey) (proto : Scaffold) (rows : List Row) (gap : List Row → Option Gap) :
-    ((fuseStep acc key proto rows gap).flatMap (fun e => keysOf e.2.rows)).Perm
-      (acc.flatMap (fun e => keysOf e.2.rows) ++ keysOf rows) := by
+theorem fuseStep_keys (acc : FAcc) (key : FKey) (proto : Scaffold) (add : List Row → List Row) (K : List Key)
+    (hadd : ∀ built, keysOf (add built) = keysOf built ++ K) :
+    ((fuseStep acc key proto add).flatMap (fun e => keysOf e.2.rows)).Perm
+      (acc.flatMap (fun e => keysOf e.2.rows) ++ K) := by
   unfold fuseStep
   cases h : dGet? acc key with
   | some s =>
     simp only
-    exact dSet_flatMap_perm (fun s : Scaffold => keysOf s.rows) acc key s _ (keysOf rows) h (keysOf_appendRows _ _ _)
+    exact dSet_flatMap_perm (fun s : Scaffold => keysOf s.rows) acc key s _ K h (hadd _)
   | none =>
-    simp only [List.flatMap_append, List.flatMap_cons, List.flatMap_nil, List.append_nil, keysOf_appendRows]
+    simp only [List.flatMap_append, List.flatMap_cons, List.flatMap_nil, List.append_nil, hadd]
     simp [keysOf, fragmentsOf]
 
-/-- any property of row lists that holds for all accumulated scaffolds and is preserved by appending `rows` holds after the step -/
-theorem fuseStep_all (Q : List Row → Prop) (acc : FAcc) (key : FKey) (proto : Scaffold) (rows : List Row)
-    (gap : List Row → Option Gap) (hacc : ∀ e ∈ acc, Q e.2.rows)
-    (hnew : Q (Scaffold.appendRows [] rows (gap [])))
-    (hext : ∀ built, built ≠ [] → Q built → Q (Scaffold.appendRows built rows (gap built)))
+/-- any property of row lists that holds for all accumulated scaffolds and is preserved by `add` holds after the step -/
+theorem fuseStep_all (Q : List Row → Prop) (acc : FAcc) (key : FKey) (proto : Scaffold)
+    (add : List Row → List Row) (hacc : ∀ e ∈ acc, Q e.2.rows)
+    (hnew : Q (add []))
+    (hext : ∀ built, built ≠ [] → Q built → Q (add built))
     (hne : ∀ e ∈ acc, e.2.rows ≠ []) :
-    ∀ e ∈ fuseStep acc key proto rows gap, Q e.2.rows := by
+    ∀ e ∈ fuseStep acc key proto add, Q e.2.rows := by
   unfold fuseStep
   cases h : dGet? acc key with
   | some s =>
@@ -247,12 +248,58 @@ theorem appendRows_ne_nil (rows othr : List Row) (g : Option Gap) (h : othr ≠ 
   | none => simp [h]
   | some gg => simp only; split; exact h; simp
 
-theorem fuseStep_nonempty (acc : FAcc) (key : FKey) (proto : Scaffold) (rows : List Row)
-    (gap : List Row → Option Gap) (hrows : rows ≠ []) (hne : ∀ e ∈ acc, e.2.rows ≠ []) :
-    ∀ e ∈ fuseStep acc key proto rows gap, e.2.rows ≠ [] :=
-  fuseStep_all (fun r => r ≠ []) acc key proto rows gap hne (appendRows_ne_nil _ _ _ hrows)
-    (fun _ _ _ => appendRows_ne_nil _ _ _ hrows) hne
+theorem fuseStep_nonempty (acc : FAcc) (key : FKey) (proto : Scaffold) (add : List Row → List Row)
+    (hadd : ∀ built, add built ≠ []) (hne : ∀ e ∈ acc, e.2.rows ≠ []) :
+    ∀ e ∈ fuseStep acc key proto add, e.2.rows ≠ [] :=
+  fuseStep_all (fun r => r ≠ []) acc key proto add hne (hadd _) (fun _ _ _ => hadd _) hne
 
+/-! ### `gaps_before_leftover` returns gap rows only -/
+
+theorem gapsBeforeLeftover_nil (jg : Option Gap) (pred : Option (Fragment × List Gap)) :
+    gapsBeforeLeftover jg [] pred = [] := rfl
+
+/-- every row `gaps_before_leftover` returns is a gap row: the join gap, or one of the input gap rows recorded with the
+    left-over scaffold's predecessor -/
+theorem gapsBeforeLeftover_rows (jg : Option Gap) (built : List Row) (pred : Option (Fragment × List Gap)) :
+    ∀ x ∈ gapsBeforeLeftover jg built pred,
+      ∃ g, x = Row.gap g ∧ (jg = some g ∨ ∃ prev gaps, pred = some (prev, gaps) ∧ g ∈ gaps) := by
+  intro x hx
+  unfold gapsBeforeLeftover at hx
+  split at hx
+  · cases hx
+  · have hd : ∀ x ∈ (match jg with | some g => [Row.gap g] | none => ([] : List Row)), ∃ g, x = Row.gap g ∧ jg = some g := by
+      intro x hx
+      cases jg with
+      | none => cases hx
+      | some g => simp only [List.mem_cons, List.not_mem_nil, or_false] at hx; exact ⟨g, hx, rfl⟩
+    simp only at hx
+    cases pred with
+    | none => obtain ⟨g, e, hj⟩ := hd x hx; exact ⟨g, e, Or.inl hj⟩
+    | some p =>
+      obtain ⟨prev, gaps⟩ := p
+      cases hr : built.reverse with
+      | nil => rw [hr] at hx; obtain ⟨g, e, hj⟩ := hd x hx; exact ⟨g, e, Or.inl hj⟩
+      | cons y t =>
+        rw [hr] at hx
+        cases y with
+        | gap g0 => obtain ⟨g, e, hj⟩ := hd x hx; exact ⟨g, e, Or.inl hj⟩
+        | frag last =>
+          simp only at hx
+          by_cases hc : last.name = prev.name ∧ last.strand = prev.strand ∧
+              (if prev.strand = -1 then last.start else last.stop) = (if prev.strand = -1 then prev.start else prev.stop)
+          · rw [if_pos hc] at hx
+            obtain ⟨g, hg, rfl⟩ := List.mem_map.mp hx
+            exact ⟨g, rfl, Or.inr ⟨prev, gaps, rfl, hg⟩⟩
+          · rw [if_neg hc] at hx
+            obtain ⟨g, e, hj⟩ := hd x hx; exact ⟨g, e, Or.inl hj⟩
+
+theorem gapsBeforeLeftover_gaps (jg : Option Gap) (built : List Row) (pred : Option (Fragment × List Gap)) :
+    ∀ x ∈ gapsBeforeLeftover jg built pred, ∃ g, x = Row.gap g :=
+  fun x hx => let ⟨g, e, _⟩ := gapsBeforeLeftover_rows jg built pred x hx; ⟨g, e⟩
+
+theorem keysOf_leftover_add (jg : Option Gap) (built rows : List Row) (pred : Option (Fragment × List Gap)) :
+    keysOf (built ++ gapsBeforeLeftover jg built pred ++ rows) = keysOf built ++ keysOf rows := by
+  simp [keysOf, fragmentsOf_append, fragmentsOf_all_gaps _ (gapsBeforeLeftover_gaps jg built pred)]
 
 /-! ### the two loops of `fuseByName` -/
 
@@ -262,7 +309,7 @@ def accKeys (acc : FAcc) : List Key := acc.flatMap (fun e => keysOf e.2.rows)
 def storeKeys (l : List Res) : List Key := l.flatMap (fun r => if r.added then keysOf r.o.rows else [])
 
 /-- triples held by the left-over scaffolds -/
-def extraKeys (l : List (Scaffold × Option (Fragment × Option Gap))) : List Key := l.flatMap (fun e => keysOf e.1.rows)
+def extraKeys (l : List (Scaffold × Option (Fragment × List Gap))) : List Key := l.flatMap (fun e => keysOf e.1.rows)
 
 theorem toScaffoldRows_ne_nil (o : OverlapResult) (h : o.rows ≠ []) : o.toScaffoldRows ≠ [] := by
   unfold OverlapResult.toScaffoldRows
@@ -282,20 +329,20 @@ theorem fuseStore_take (b : Build) (acc : FAcc) (r : Res) (h1 : r.added = true) 
     fuseStore b acc r = fuseStep acc (r.o.tag, r.o.haplotype, r.o.name)
       { name := r.o.name, tag := r.o.tag, haplotype := r.o.haplotype, rank := r.o.rank,
         originalName := r.o.originalName, originalTags := r.o.originalTags }
-      r.o.toScaffoldRows (fun _ => b.joinGap) := by
+      (fun built => Scaffold.appendRows built r.o.toScaffoldRows b.joinGap) := by
   unfold fuseStore
   rw [if_neg]
   simp [h1, h2]
 
-theorem fuseExtra_skip (b : Build) (acc : FAcc) (e : Scaffold × Option (Fragment × Option Gap)) (h : e.1.rows = []) :
+theorem fuseExtra_skip (b : Build) (acc : FAcc) (e : Scaffold × Option (Fragment × List Gap)) (h : e.1.rows = []) :
     fuseExtra b acc e = acc := by
   unfold fuseExtra; simp [h]
 
-theorem fuseExtra_take (b : Build) (acc : FAcc) (e : Scaffold × Option (Fragment × Option Gap)) (h : e.1.rows ≠ []) :
+theorem fuseExtra_take (b : Build) (acc : FAcc) (e : Scaffold × Option (Fragment × List Gap)) (h : e.1.rows ≠ []) :
     fuseExtra b acc e = fuseStep acc (e.1.tag, e.1.haplotype, e.1.name)
       { name := e.1.name, tag := e.1.tag, haplotype := e.1.haplotype, rank := e.1.rank,
-        originalName := e.1.originalName, originalTags := e.1.originalTags } e.1.rows
-      (fun built => gapBeforeLeftover b.joinGap built e.2) := by
+        originalName := e.1.originalName, originalTags := e.1.originalTags }
+      (fun built => built ++ gapsBeforeLeftover b.joinGap built e.2 ++ e.1.rows) := by
   unfold fuseExtra; simp [h]
 
 theorem fuseStore_keys (b : Build) (acc : FAcc) (r : Res) :
@@ -304,15 +351,16 @@ theorem fuseStore_keys (b : Build) (acc : FAcc) (r : Res) :
   · by_cases h2 : r.o.rows = []
     · rw [fuseStore_skip _ _ _ (Or.inr h2)]; simp [h1, h2, keysOf, fragmentsOf]
     · rw [fuseStore_take _ _ _ h1 h2, if_pos h1]
-      exact (fuseStep_keys _ _ _ _ _).trans (List.Perm.append_left _ (keysOf_toScaffoldRows _))
+      exact (fuseStep_keys _ _ _ _ _ (fun built => keysOf_appendRows built _ _)).trans
+        (List.Perm.append_left _ (keysOf_toScaffoldRows _))
   · have : r.added = false := by simpa using h1
     rw [fuseStore_skip _ _ _ (Or.inl this)]; simp [this]
 
-theorem fuseExtra_keys (b : Build) (acc : FAcc) (e : Scaffold × Option (Fragment × Option Gap)) :
+theorem fuseExtra_keys (b : Build) (acc : FAcc) (e : Scaffold × Option (Fragment × List Gap)) :
     (accKeys (fuseExtra b acc e)).Perm (accKeys acc ++ keysOf e.1.rows) := by
   by_cases h : e.1.rows = []
   · rw [fuseExtra_skip _ _ _ h]; simp [h, keysOf, fragmentsOf]
-  · rw [fuseExtra_take _ _ _ h]; exact fuseStep_keys _ _ _ _ _
+  · rw [fuseExtra_take _ _ _ h]; exact fuseStep_keys _ _ _ _ _ (fun built => keysOf_leftover_add _ built _ _)
 
 theorem foldl_fuseStore_keys (b : Build) (l : List Res) (acc : FAcc) :
     (accKeys (l.foldl (fuseStore b) acc)).Perm (accKeys acc ++ storeKeys l) := by
@@ -325,7 +373,7 @@ theorem foldl_fuseStore_keys (b : Build) (l : List Res) (acc : FAcc) :
     rw [← List.append_assoc]
     exact List.Perm.append_right _ (fuseStore_keys b acc r)
 
-theorem foldl_fuseExtra_keys (b : Build) (l : List (Scaffold × Option (Fragment × Option Gap))) (acc : FAcc) :
+theorem foldl_fuseExtra_keys (b : Build) (l : List (Scaffold × Option (Fragment × List Gap))) (acc : FAcc) :
     (accKeys (l.foldl (fuseExtra b) acc)).Perm (accKeys acc ++ extraKeys l) := by
   induction l generalizing acc with
   | nil => simp [extraKeys]
@@ -354,18 +402,19 @@ theorem foldl_fuseStore_all (Q : List Row → Prop) (b : Build) (l : List Res) (
         · rw [fuseStore_take _ _ _ h1 h2]
           obtain ⟨s1, s2⟩ := hstep r (List.mem_cons_self ..) h1 h2
           intro e he
-          exact ⟨fuseStep_all Q _ _ _ _ _ (fun e he => (hacc e he).1) s1 s2 (fun e he => (hacc e he).2) e he,
-                 fuseStep_nonempty _ _ _ _ _ (toScaffoldRows_ne_nil _ h2) (fun e he => (hacc e he).2) e he⟩
+          exact ⟨fuseStep_all Q _ _ _ _ (fun e he => (hacc e he).1) s1 s2 (fun e he => (hacc e he).2) e he,
+                 fuseStep_nonempty _ _ _ _ (fun _ => appendRows_ne_nil _ _ _ (toScaffoldRows_ne_nil _ h2))
+                   (fun e he => (hacc e he).2) e he⟩
       · have : r.added = false := by simpa using h1
         rw [fuseStore_skip _ _ _ (Or.inl this)]; exact hacc
     · exact fun r hr => hstep r (List.mem_cons_of_mem _ hr)
 
 /-- property transfer through the second loop -/
-theorem foldl_fuseExtra_all (Q : List Row → Prop) (b : Build) (l : List (Scaffold × Option (Fragment × Option Gap)))
+theorem foldl_fuseExtra_all (Q : List Row → Prop) (b : Build) (l : List (Scaffold × Option (Fragment × List Gap)))
     (acc : FAcc) (hacc : ∀ e ∈ acc, Q e.2.rows ∧ e.2.rows ≠ [])
     (hstep : ∀ x ∈ l, x.1.rows ≠ [] →
-      Q (Scaffold.appendRows [] x.1.rows (gapBeforeLeftover b.joinGap [] x.2)) ∧
-      ∀ built, built ≠ [] → Q built → Q (Scaffold.appendRows built x.1.rows (gapBeforeLeftover b.joinGap built x.2))) :
+      Q x.1.rows ∧
+      ∀ built, built ≠ [] → Q built → Q (built ++ gapsBeforeLeftover b.joinGap built x.2 ++ x.1.rows)) :
     ∀ e ∈ l.foldl (fuseExtra b) acc, Q e.2.rows ∧ e.2.rows ≠ [] := by
   induction l generalizing acc with
   | nil => exact hacc
@@ -377,8 +426,9 @@ theorem foldl_fuseExtra_all (Q : List Row → Prop) (b : Build) (l : List (Scaff
       · rw [fuseExtra_take _ _ _ h2]
         obtain ⟨s1, s2⟩ := hstep r (List.mem_cons_self ..) h2
         intro e he
-        exact ⟨fuseStep_all Q _ _ _ _ _ (fun e he => (hacc e he).1) s1 s2 (fun e he => (hacc e he).2) e he,
-               fuseStep_nonempty _ _ _ _ _ h2 (fun e he => (hacc e he).2) e he⟩
+        exact ⟨fuseStep_all Q _ _ _ _ (fun e he => (hacc e he).1) (by simpa [gapsBeforeLeftover_nil] using s1) s2
+                 (fun e he => (hacc e he).2) e he,
+               fuseStep_nonempty _ _ _ _ (fun _ => by simp [h2]) (fun e he => (hacc e he).2) e he⟩
     · exact fun r hr => hstep r (List.mem_cons_of_mem _ hr)
 
 /-- both loops -/
@@ -387,8 +437,8 @@ theorem fuseByName_all (Q : List Row → Prop) (b : Build)
       Q (Scaffold.appendRows [] r.o.toScaffoldRows b.joinGap) ∧
       ∀ built, built ≠ [] → Q built → Q (Scaffold.appendRows built r.o.toScaffoldRows b.joinGap))
     (hextra : ∀ x ∈ b.extra, x.1.rows ≠ [] →
-      Q (Scaffold.appendRows [] x.1.rows (gapBeforeLeftover b.joinGap [] x.2)) ∧
-      ∀ built, built ≠ [] → Q built → Q (Scaffold.appendRows built x.1.rows (gapBeforeLeftover b.joinGap built x.2))) :
+      Q x.1.rows ∧
+      ∀ built, built ≠ [] → Q built → Q (built ++ gapsBeforeLeftover b.joinGap built x.2 ++ x.1.rows)) :
     ∀ s ∈ fuseByName b, Q s.rows ∧ s.rows ≠ [] := by
   intro s hs
   rw [fuseByName_eq] at hs
